@@ -21,7 +21,9 @@ pub fn word_of_len(t: &mut Tape, len: usize) -> String {
 
 pub fn word(t: &mut Tape, first: bool) -> String {
     for _ in 0..8 {
-        let w = match t.weighted(&[55, 20, 25]) {
+        let w = match t.weighted(&[55, 20, 25, if first { 0 } else { 6 }]) {
+            // a digit token as a word (never first: there it starts an expression); it counts by its characters
+            3 => return t.choose(&["5", "42", "007", "125", "0", "1000000"]).to_string(),
             0 => {
                 let len = match t.weighted(&[50, 20, 20, 10]) {
                     0 => 1 + t.pick(9),
@@ -87,6 +89,9 @@ pub fn literal(t: &mut Tape, cfg: PoeticCfg) -> Vec<PoeticElem> {
     let long = n_words > 12;
     while words < n_words {
         let k = if long { t.weighted(&[88, 3, 3, 6]) } else { t.weighted(&[62, 12, 12, 14]) };
+        // nothing attaches to a digit token: `5's`, `5-cold` and `5.` are other token sequences
+        let after_digit = matches!(v.last(), Some(PoeticElem::Word(w)) if w.starts_with(|c: char| c.is_ascii_digit()));
+        let k = if after_digit { 0 } else { k };
         match k {
             1 if prev != 0 || cfg.orphan_suffix => {
                 let s = if prev == 1 { *t.choose(&["'s", "'re", "'S", "'RE", "'Re", "'rE"]) } else { *t.choose(&["'s", "'re"]) };
@@ -102,7 +107,11 @@ pub fn literal(t: &mut Tape, cfg: PoeticCfg) -> Vec<PoeticElem> {
                 prev = 2;
             }
             2 if !v.is_empty() && (prev != 0 || cfg.orphan_suffix) => {
-                let w = word(t, false);
+                let mut w = word(t, false);
+                if w.starts_with(|c: char| c.is_ascii_digit()) {
+                    // "-5" would be a negative number, not a hyphenated part
+                    w = "desire".into();
+                }
                 if prev == 0 {
                     if seen_dot {
                         digits_after += 1
@@ -113,7 +122,8 @@ pub fn literal(t: &mut Tape, cfg: PoeticCfg) -> Vec<PoeticElem> {
                 v.push(PoeticElem::Suffix(format!("-{}", w)));
                 prev = 1;
             }
-            3 => {
+            // (a period directly after a digit token would be part of that number)
+            3 if !matches!(v.last(), Some(PoeticElem::Word(w)) if w.starts_with(|c: char| c.is_ascii_digit())) => {
                 v.push(PoeticElem::Dot);
                 seen_dot = true;
                 prev = 0;
